@@ -9,21 +9,16 @@ contract; the correspondence certifies each answer of the real code.
 -/
 import GivaroModel.Lemmas.PrimesLemmas
 import GivaroModel.Lemmas.PrimesTabAll
+import GivaroModel.Lemmas.PrimesPower
+import GivaroModel.Lemmas.PrimesDivisors
+import GivaroModel.Lemmas.PrimesFactor
 namespace Givaro.Props.C12
 open Givaro Givaro.Model.Primes Givaro.Spec.Primes Givaro.Lemmas.Primes Givaro.Lemmas.PrimesTab
 
 /-! ## Primality -/
 
 /-- the reference test (trial division) decides primality -/
-theorem isPrimeDec_iff (n : Nat) : isPrimeDec n = true ↔ Nat.Prime n := by
-  unfold isPrimeDec
-  rw [Bool.and_eq_true, decide_eq_true_eq, Nat.prime_def_le_sqrt]
-  constructor
-  · rintro ⟨h2, h⟩
-    refine ⟨h2, fun m hm hms => ?_⟩
-    exact (noDivFrom_iff n n 2 (Nat.le_refl 2) (by omega)).1 h m hm (Nat.le_sqrt.1 hms)
-  · rintro ⟨h2, h⟩
-    refine ⟨h2, (noDivFrom_iff n n 2 (Nat.le_refl 2) (by omega)).2 fun k hk hkk => h k hk (Nat.le_sqrt.2 hkk)⟩
+theorem isPrimeDec_iff (n : Nat) : isPrimeDec n = true ↔ Nat.Prime n := isPrimeDec_iff_prime n
 
 /-- **Tier A.** `isprime(n)` for every n of the tabulated range: the hand-rolled search over `IP` / `IP2` (padding entries
     included, table as it is in the source now) returns 1 exactly for the primes and 0 otherwise, whatever the oracle.
@@ -247,6 +242,163 @@ theorem divisors_exact (fs : List (Nat × Nat)) (hp : ∀ pe ∈ fs, Nat.Prime p
   unfold divisors
   rw [mem_foldl_divisors fs [1] 1 (by intro y; simp) hp x, Nat.one_mul]
 
+/-- the upward walk needs at most `p + 2` steps (Bertrand's postulate): an explicit fuel for `nextprime_closest` -/
+theorem nextprime_terminates_bertrand (isp : Int → Bool) (hisp : ∀ n, isp n = true ↔ Nat.Prime n.toNat) (p : Int) :
+    ∃ r, nextprime isp (p.toNat + 2) p = some r := by
+  unfold nextprime
+  by_cases hp : p ≤ 1
+  · exact ⟨2, by simp [hp]⟩
+  · simp only [hp, ↓reduceIte]
+    obtain ⟨q, hq, hq1, hq2⟩ := Nat.exists_prime_lt_and_le_two_mul (p.toNat + 1) (by omega)
+    have hodd : q % 2 = 1 := by
+      rcases hq.eq_two_or_odd with h | h <;> omega
+    set s : Int := p + (if p % 2 = 1 then 2 else 1) with hs
+    have hk : ∃ k : Nat, s + 2 * (k : Int) = (q : Int) ∧ k + 1 ≤ p.toNat + 2 := by
+      refine ⟨((q : Int) - s).toNat / 2, ?_, ?_⟩ <;> split at hs <;> omega
+    obtain ⟨k, hk, hk2⟩ := hk
+    obtain ⟨r, hr⟩ := upLoop_some isp k s (by rw [hk, hisp]; simpa using hq)
+    obtain ⟨d, hd⟩ := Nat.exists_eq_add_of_le hk2
+    exact ⟨r, by rw [hd]; exact upLoop_mono isp (k + 1) d s r hr⟩
+
+/-! ## Prime-power test (`IntPrimeDom::isprimepower`) -/
+
+/-- **All inputs.** For every integer `u` (0 and negatives included), every primality test and every `mpz_root` meeting their
+    contracts: `isprimepower(q,u)` returns `e > 0` exactly when `u = p^k` for a prime `p` and `k ≥ 2`, and then `q = p`,
+    `e = k`; it returns 0 otherwise (in particular for primes, 0, 1 and negative `u`).
+    The only hypothesis besides the contracts is that the exponent fits the `unsigned int` return type
+    (`u < 2^(2^32)`; a larger `u` would need 512 MiB). -/
+theorem isprimepower_exact (isp : Int → Bool) (hisp : ∀ n : Int, isp n = true ↔ Nat.Prime n.toNat)
+    (root : Nat → Nat → Nat) (hroot : RootOK root) (u : Int) (hu : Nat.log2 u.toNat < 4294967296) :
+    (0 < (isprimepower isp root u).1 ↔ ∃ p k, Nat.Prime p ∧ 2 ≤ k ∧ ((p : Int)) ^ k = u) ∧
+    (∀ p k, Nat.Prime p → 2 ≤ k → ((p : Int)) ^ k = u → isprimepower isp root u = (k, p)) := by
+  obtain ⟨h0, hpos⟩ := isprimepower_spec isp hisp root hroot u hu
+  have cast : ∀ p k : Nat, 0 < p → ((p : Int)) ^ k = u → 0 < u ∧ p ^ k = u.toNat := by
+    intro p k hp0 h
+    have h' : ((p ^ k : Nat) : Int) = u := by push_cast; exact h
+    have hpk : 0 < p ^ k := Nat.pow_pos hp0
+    constructor <;> omega
+  have value : ∀ p k, Nat.Prime p → 2 ≤ k → ((p : Int)) ^ k = u → isprimepower isp root u = (k, p) := by
+    intro p k hp hk h
+    obtain ⟨hupos, hnat⟩ := cast p k hp.pos h
+    have hs := hpos hupos
+    have hne : (isprimepower isp root u).1 ≠ 0 := fun hz => hs.2 hz ⟨p, k, hp, hk, hnat⟩
+    obtain ⟨hq, _, hqe⟩ := hs.1 (by omega)
+    obtain ⟨e1, e2⟩ := prime_pow_unique hp hq (by omega) (hqe.trans hnat.symm)
+    exact Prod.ext e2 e1
+  refine ⟨⟨fun hpos' => ?_, fun ⟨p, k, hp, hk, h⟩ => by rw [value p k hp hk h]; omega⟩, value⟩
+  by_cases hu0 : u ≤ 0
+  · have := h0 hu0; omega
+  · obtain ⟨hq, he, hqe⟩ := (hpos (by omega)).1 hpos'
+    refine ⟨_, _, hq, he, ?_⟩
+    have : (((isprimepower isp root u).2 ^ (isprimepower isp root u).1 : Nat) : Int) = u := by rw [hqe]; omega
+    push_cast at this; exact this
+
+/-- soundness alone, in the shape the harness checks: a positive answer is a certificate -/
+theorem isprimepower_sound (isp : Int → Bool) (hisp : ∀ n : Int, isp n = true ↔ Nat.Prime n.toNat)
+    (root : Nat → Nat → Nat) (hroot : RootOK root) (u : Int) (hu : Nat.log2 u.toNat < 4294967296)
+    (h : 0 < (isprimepower isp root u).1) :
+    Nat.Prime (isprimepower isp root u).2 ∧ 2 ≤ (isprimepower isp root u).1 ∧
+      (((isprimepower isp root u).2 : Nat) : Int) ^ (isprimepower isp root u).1 = u := by
+  obtain ⟨p, k, hp, hk, hpk⟩ := (isprimepower_exact isp hisp root hroot u hu).1.1 h
+  rw [(isprimepower_exact isp hisp root hroot u hu).2 p k hp hk hpk]
+  exact ⟨hp, hk, hpk⟩
+
+/-- the code as it is: `isprime` (tables + GMP oracle) as the primality test -/
+theorem isprimepower_exact_code (oracle : Int → Int) (hor : OracleOK oracle) (root : Nat → Nat → Nat) (hroot : RootOK root)
+    (u : Int) (hu : Nat.log2 u.toNat < 4294967296) :
+    (0 < (isprimepower (ispB oracle) root u).1 ↔ ∃ p k, Nat.Prime p ∧ 2 ≤ k ∧ ((p : Int)) ^ k = u) ∧
+    (∀ p k, Nat.Prime p → 2 ≤ k → ((p : Int)) ^ k = u → isprimepower (ispB oracle) root u = (k, p)) :=
+  isprimepower_exact (ispB oracle) (isprime_correct oracle hor) root hroot u hu
+
+/-- the bisection the driver substitutes for `mpz_root` meets the contract (so the compared model is covered) -/
+theorem iroot_meets_contract : RootOK Givaro.Model.Primes.iroot := iroot_ok
+
+/-- the defect repaired by fixes/C12_4, on the model of the old loop body: an exact root that is not prime ended the search -/
+theorem isprimepower_unfixed_counterexample :
+    (let q := Givaro.Model.Primes.iroot (1013 ^ 4) 2; q ^ 2 = 1013 ^ 4 ∧ isPrimeDec q = false) := by decide +kernel
+
+/-! ## Divisor list -/
+
+/-- **All factorisation lists.** the list built by `divisors(L, Lf, Le)` has no duplicates … -/
+theorem divisors_nodup (fs : List (Nat × Nat)) (hp : ∀ pe ∈ fs, Nat.Prime pe.1) (hnd : (fs.map Prod.fst).Nodup) :
+    (divisors fs).Nodup := divisors_nodup_of_primes fs hp hnd
+
+/-- … and is, as a set, exactly `Nat.divisors` of the product (with `divisors_nodup`: each divisor exactly once) -/
+theorem divisors_eq_nat_divisors (fs : List (Nat × Nat)) (hp : ∀ pe ∈ fs, Nat.Prime pe.1) :
+    (divisors fs).toFinset = Nat.divisors (prodPow fs) := divisors_toFinset_of_primes fs hp
+
+/-- `divisors(L, n)` = `set` then the construction: for every `n ≠ 0` and every prime-factor oracle the result lists every
+    positive divisor of `n` exactly once -/
+theorem divisors_of_set (pf : Nat → Nat) (hpf : ∀ m, 1 < m → Nat.Prime (pf m) ∧ pf m ∣ m) (n : Int) (hn : n ≠ 0) :
+    ∃ fs, Givaro.Model.Primes.set pf n = some (fs, true) ∧ (divisors fs).Nodup ∧
+      (divisors fs).toFinset = Nat.divisors n.natAbs := by
+  obtain ⟨fs, h1, h2, h3, h4⟩ := set_complete pf hpf n hn
+  refine ⟨fs, h1, divisors_nodup fs (fun pe h => (h2 pe h).1) h3, ?_⟩
+  rw [divisors_eq_nat_divisors fs (fun pe h => (h2 pe h).1), h4]
+
+/-! ## The factor-driver loops (`factor`, `iffactorprime`, `primefactor`, `set` with and without `loops`) -/
+
+/-- `factor(r,n,0)`: the returned factor divides `n`, is > 1, and is non-trivial when `n > 1` is composite — for every rho
+    oracle meeting the `loops = 0` contract (a non-trivial divisor of every composite) -/
+theorem factor_nontrivial (isp : Int → Bool) (hisp : ∀ n : Int, isp n = true ↔ Nat.Prime n.toNat)
+    (rho : Int → Int) (hrho : RhoFull rho) (n : Int) (hn : 1 < n) :
+    factorP isp rho n ∣ n ∧ 1 < factorP isp rho n ∧ factorP isp rho n ≤ n ∧
+      (¬ Nat.Prime n.toNat → factorP isp rho n < n) := factorP_full isp hisp rho hrho n hn
+
+/-- `iffactorprime(r,n,0)` returns a prime factor of every `n > 1` (the loop `while (!isprime(r))` descends through proper
+    divisors; `n + 1` iterations always suffice; Lenstra is never reached) -/
+theorem iffactorprime_prime (isp : Int → Bool) (hisp : ∀ n : Int, isp n = true ↔ Nat.Prime n.toNat)
+    (rho : Nat → Int → Int) (hrho : ∀ i, RhoFull (rho i)) (ecm : Int → Int) (n : Int) (hn : 1 < n) :
+    ∃ r, iffactorprime isp rho ecm (n.toNat + 1) n = some r ∧ Nat.Prime r.toNat ∧ r ∣ n ∧ 1 < r :=
+  iffactorprime_full isp hisp rho hrho ecm n hn (n.toNat + 1) (by omega)
+
+/-- `primefactor(r,n)` returns a prime factor of every `n > 1` -/
+theorem primefactor_prime (isp : Int → Bool) (hisp : ∀ n : Int, isp n = true ↔ Nat.Prime n.toNat)
+    (rho : Nat → Nat → Int → Int) (hrho : ∀ k i, RhoFull (rho k i)) (ecm : Int → Int) (n : Int) (hn : 1 < n) (fuel : Nat) :
+    ∃ r, primefactor isp rho ecm (fuel + 1) n = some r ∧ Nat.Prime r.toNat ∧ r ∣ n :=
+  primefactor_full isp hisp rho hrho ecm n hn fuel
+
+/-- … and `primefactor(r,1)` does not return, whatever the oracles (a hang on the real code; outside the property: 1 has no
+    prime factor) -/
+theorem primefactor_one_never_returns (isp : Int → Bool) (hisp : ∀ n : Int, isp n = true ↔ Nat.Prime n.toNat)
+    (rho : Nat → Nat → Int → Int) (ecm : Int → Int) (fuel : Nat) : primefactor isp rho ecm fuel 1 = none :=
+  primefactor_one_diverges isp hisp rho ecm fuel
+
+/-- **Partial contract of the `loops`-bounded `set`.** For *any* oracle returning a positive divisor (1 = "no factor found
+    within `loops`", composite answers allowed): the loop terminates, the bases are ≥ 2 and pairwise distinct, the
+    exponents ≥ 1, the product is `|n|`; and when every non-failure answer is prime, the returned flag `true` certifies
+    that all bases are prime. -/
+theorem set_partial (pf : Nat → Nat) (hpf : ∀ m, 1 < m → 1 ≤ pf m ∧ pf m ∣ m)
+    (hprime : ∀ m, 1 < m → pf m ≠ 1 → Nat.Prime (pf m)) (n : Int) (hn : n ≠ 0) :
+    ∃ fs c, Givaro.Model.Primes.set pf n = some (fs, c) ∧ (∀ pe ∈ fs, 2 ≤ pe.1 ∧ 1 ≤ pe.2) ∧
+      (fs.map Prod.fst).Nodup ∧ prodPow fs = n.natAbs ∧ (c = true → ∀ pe ∈ fs, Nat.Prime pe.1) :=
+  set_partial_gen pf hpf Nat.Prime hprime n hn
+
+/-- **`set(Lf, Lo, n)` as the code runs it** (`iffactorprime` inside the loop, cascades + Pollard inside `iffactorprime`):
+    complete factorisation of every `n ≠ 0` into distinct primes, for every primality test and rho oracle meeting their
+    contracts -/
+theorem setCode_complete (isp : Int → Bool) (hisp : ∀ n : Int, isp n = true ↔ Nat.Prime n.toNat)
+    (rho : Nat → Nat → Int → Int) (hrho : ∀ k i, RhoFull (rho k i)) (ecm : Int → Int) (n : Int) (hn : n ≠ 0) :
+    ∃ fs, setCode isp rho ecm n = some (fs, true) ∧ (∀ pe ∈ fs, Nat.Prime pe.1 ∧ 1 ≤ pe.2) ∧
+      (fs.map Prod.fst).Nodup ∧ prodPow fs = n.natAbs :=
+  set_complete (pfOf isp rho ecm) (fun m hm => pfOf_full isp hisp rho hrho ecm m hm) n hn
+
+/-- `set(Lf, n)` (one container; `primefactor` inside the loop): the distinct prime factors of `|n|`, each exactly once, for every
+    `n ≠ 0` (negative `n` with fixes/C12_6) and every prime-factor oracle -/
+theorem set1_complete (pf : Nat → Nat) (hpf : ∀ m, 1 < m → Nat.Prime (pf m) ∧ pf m ∣ m) (n : Int) (hn : n ≠ 0) :
+    ∃ ps, set1 pf n = some ps ∧ ps.Nodup ∧ ∀ p, p ∈ ps ↔ Nat.Prime p ∧ p ∣ n.natAbs :=
+  set1_complete_gen pf hpf n hn
+
+/-- the defect repaired by fixes/C12_6: the unchanged one-container `set` returned nothing for a negative argument -/
+theorem set1_unfixed_counterexample (pf : Nat → Nat) : set1_unfixed pf (-15) = some [] := by
+  unfold set1_unfixed; simp
+
+/-- the factor list is *not* sorted in general: the cascade tests 23, 19, 17 before 2, 3, … (`set(561)` on the real code
+    returns 17, 3, 11 as well); the property does not ask for an order -/
+theorem set_not_sorted :
+    Givaro.Model.Primes.set (fun m => (factor (fun x => x) (m : Int)).toNat) 561 = some ([(17, 1), (3, 1), (11, 1)], true) := by
+  decide +kernel
+
 /-! ## Non-vacuity of the hypotheses -/
 
 /-- an oracle meeting the contract exists (the reference test itself) -/
@@ -272,5 +424,22 @@ example : ∀ m, 1 < m → Nat.Prime (Nat.minFac m) ∧ Nat.minFac m ∣ m :=
   fun m h => ⟨Nat.minFac_prime (by omega), Nat.minFac_dvd m⟩
 example : Givaro.Model.Primes.set (fun m => if m % 2 = 0 then 2 else if m % 3 = 0 then 3 else 5) (-360) = some ([(2, 3), (3, 2), (5, 1)], true) := by decide
 example : divisors [(2, 2), (3, 1)] = [1, 2, 4, 3, 6, 12] := by decide
+/-- a rho oracle meeting the `loops = 0` contract exists (the least prime factor) -/
+example : RhoFull (fun m => (Nat.minFac m.toNat : Int)) := by
+  intro m hm hnp
+  have h1 : m.toNat ≠ 1 := by omega
+  have hp := Nat.minFac_prime h1
+  have hd := Nat.minFac_dvd m.toNat
+  have hle := Nat.minFac_le (n := m.toNat) (by omega)
+  have hne : Nat.minFac m.toNat ≠ m.toNat := fun h => hnp (h ▸ hp)
+  have h2 := hp.two_le
+  show (1 : Int) < (Nat.minFac m.toNat : Int) ∧ (Nat.minFac m.toNat : Int) < m ∧ (Nat.minFac m.toNat : Int) ∣ m
+  refine ⟨by omega, by omega, ?_⟩
+  have : ((Nat.minFac m.toNat : Nat) : Int) ∣ ((m.toNat : Nat) : Int) := Int.natCast_dvd_natCast.2 hd
+  rwa [Int.toNat_of_nonneg (by omega)] at this
+/-- `RootOK` is inhabited (`iroot_meets_contract`); samples of the prime-power test (tests, not theorems) -/
+example : isprimepower (fun m : Int => isPrimeDec m.toNat) Givaro.Model.Primes.iroot 1053022816561 = (4, 1013) := by decide +kernel
+example : isprimepower (fun m : Int => isPrimeDec m.toNat) Givaro.Model.Primes.iroot (-27) = (0, 0) := by decide +kernel
+example : isprimepower (fun m : Int => isPrimeDec m.toNat) Givaro.Model.Primes.iroot 1024 = (10, 2) := by decide +kernel
 
 end Givaro.Props.C12
